@@ -7,14 +7,17 @@ Executable, core-only; built on the transaction decoder of `Model/Tx.lean`.
 * `keypair.DeserializePublicKey` followed (at serialization time) by `keypair.SerializePublicKey` is the abstract
   parameter `Keys.canon : Bytes → Option Bytes` (`none` = the blob is not a public key).
 * Hash functions are parameters (`Hashes`); the driver instantiates them with SHA-256.
-* `Variant.asShipped` mirrors the code: the loop bounds `int(n)` of the bookkeeper / signature lists are negative for
-  `n ≥ 2^63` (zero iterations), and a bookkeeper blob is stored as the decoded key, hence re-encoded canonically.
-  `Variant.sound` iterates `n` times and rejects a blob that is not its own canonical encoding.
+* `Variant.asShipped` mirrors the code as found: the loop bounds `int(n)` of the bookkeeper / signature lists are
+  negative for `n ≥ 2^63` (zero iterations), a bookkeeper blob is stored as the decoded key, hence re-encoded
+  canonically, and `CrossChainMsg.Deserialization` pre-allocates `make([][]byte, 0, sigLen)`.
+  `Variant.countFixed` mirrors the code after `fixes/C20-header-count-wrap.patch` (uint64 loop counters, no
+  pre-allocation from the wire count); alternative key encodings are still accepted (known finding).
+  `Variant.sound` additionally rejects a blob that is not its own canonical encoding.
 -/
 namespace OntVerif.Model.Block
 open OntVerif.Util OntVerif.Model.Codec OntVerif.Model.Tx
 
-inductive Variant | asShipped | sound
+inductive Variant | asShipped | countFixed | sound
   deriving Repr, DecidableEq
 
 structure Keys where
@@ -31,7 +34,7 @@ def two63 : Nat := 9223372036854775808
 def loopCount (V : Variant) (n : Nat) : Nat :=
   match V with
   | .asShipped => if n < two63 then n else 0
-  | .sound => n
+  | _ => n
 
 structure HeaderU where
   version : Nat
@@ -75,8 +78,8 @@ def parseKey (V : Variant) (K : Keys) : P (Bytes × Bytes) := do
   | none => fail .invalid
   | some c =>
     match V with
-    | .asShipped => pure (buf, c)
     | .sound => if c = buf then pure (buf, c) else fail .invalid
+    | _ => pure (buf, c)
 
 /-- `Header.Deserialization` -/
 def parseHeader (V : Variant) (K : Keys) : P Header := do
@@ -99,6 +102,97 @@ def serHeader (h : Header) : Bytes := serHeaderU h.u ++ serList h.bookkeepers ++
 
 /-- `Header.Hash`: computed from the unsigned serialisation of the *fields* -/
 def headerHashInput (h : Header) : Bytes := serHeaderU h.u
+
+/-! ## `RawHeader` (header bytes kept opaque; used for headers from the local store and header sync) -/
+
+structure RawHeader where
+  height : Nat
+  payload : Bytes
+  deriving Repr, DecidableEq
+
+/-- `source.Skip(n)` with the eof result ignored -/
+def skipIgn (n : Nat) : P Unit := fun s => .ok () (skip s n).2
+
+/-- `eof = source.Skip(n); if eof { return io.ErrUnexpectedEOF }` -/
+def skipE (n : Nat) : P Unit := fun s =>
+  let (eof, s') := skip s n
+  if eof then .err .eof else .ok () s'
+
+/-- `self.Height, _ = source.NextUint32()` (eof ignored: value 0) -/
+def rUintNIgn (k : Nat) : P Nat := fun s =>
+  match nextUintN k s with
+  | none => .panic
+  | some ((v, _), s') => .ok v s'
+
+/-- `RawHeader.deserializationUnsigned`: returns the height -/
+def parseRawHeaderUnsigned : P Nat := do
+  skipIgn (4 + 32 * 3 + 4)
+  let height ← rUintNIgn 4
+  skipIgn 8
+  let _ ← rVarBytes true
+  skipE 20
+  pure height
+
+/-- `RawHeader.Deserialization` -/
+def parseRawHeader (V : Variant) : P RawHeader := do
+  let pstart ← pos
+  let height ← parseRawHeaderUnsigned
+  let n ← rVarUint true
+  let _ ← repeatP (loopCount V n) (rVarBytes true)
+  let m ← rVarUint true
+  let _ ← repeatP (loopCount V m) (rVarBytes true)
+  let payload ← captured pstart
+  pure ⟨height, payload⟩
+
+/-! ## `CrossChainMsg` (travels next to a block in the p2p `Block` message and in VBFT proposals) -/
+
+structure CCMsg where
+  version : UInt8
+  height : Nat
+  statesRoot : Bytes
+  sigData : List Bytes
+  sigCount : Nat            -- ghost: the count on the wire
+  deriving Repr, DecidableEq
+
+/-- every error of this decoder is a `fmt.Errorf` -/
+def allInvalid {α : Type} (p : P α) : P α := fun s =>
+  match p s with
+  | .err _ => .err .invalid
+  | r => r
+
+/-- Go `maxAlloc` on 64-bit Linux, and the element size of `[][]byte` -/
+def maxAlloc : Nat := 281474976710656
+def sliceHeaderSize : Nat := 24
+
+/-- `makeslice`: panics when `cap * elemsize` exceeds `maxAlloc` (this includes `cap ≥ 2^63`) -/
+def makeslicePanics (cap : Nat) : Bool := decide (cap * sliceHeaderSize > maxAlloc)
+
+/-- version, height, states root and the signature count -/
+def parseCCMPrefix : P (UInt8 × Nat × Bytes × Nat) := do
+  let v ← allInvalid rByte
+  let h ← allInvalid (rUintN 4)
+  let r ← allInvalid (rBytesN 32)
+  let n ← allInvalid (rVarUint false)
+  pure (v, h, r, n)
+
+def parseCCMRest (V : Variant) (a : UInt8 × Nat × Bytes × Nat) : P CCMsg :=
+  let n := a.2.2.2
+  match V with
+  | .asShipped =>
+    if makeslicePanics n then (fun _ => .panic) else do
+      let sigs ← allInvalid (repeatP (loopCount V n) (rVarBytes false))
+      pure ⟨a.1, a.2.1, a.2.2.1, sigs, n⟩
+  | _ => do
+      let sigs ← allInvalid (repeatP n (rVarBytes false))
+      pure ⟨a.1, a.2.1, a.2.2.1, sigs, n⟩
+
+/-- `CrossChainMsg.Deserialization` -/
+def parseCCMsg (V : Variant) : P CCMsg := do
+  let a ← parseCCMPrefix
+  parseCCMRest V a
+
+def serCCMsg (m : CCMsg) : Bytes :=
+  [m.version] ++ writeUintN 4 m.height ++ m.statesRoot ++ serList m.sigData
 
 /-! ## Merkle root of the transaction hashes -/
 
